@@ -51,7 +51,7 @@ impl Prop for C07 {
             attribute_prefix: Some(random_option_string(&mut rng)),
             text_identifier: Some(random_option_string(&mut rng)),
         });
-        let replicas = vec![Replica { role: "client".into(), entropy: rng.u128(), steps }];
+        let replicas = vec![Replica { role: "client".into(), entropy: rng.u128(), steps, warmup: vec![] }];
         Scenario::Session(Session { docs: vec![], alts: vec![], replicas, opts })
     }
     fn exec(&self, sc: &Scenario, ctr: &mut Ctr) -> Result<Exec, String> {
